@@ -84,7 +84,9 @@ Proof.
     + destruct (as_index last) as [i|] eqn:Ei.
       * destruct (nth_error xs (Z.to_nat i)) as [x|] eqn:En.
         -- bind_inv H s Hs. inv_ok H. eapply local_set_elem; [exact Ei | exact En |].
-           eapply py_add_wf. exact Hs.
+           assert (Hs' : py_add x arg = Ok s)
+             by (unfold py_iadd in Hs; destruct x, arg; first [exact Hs | discriminate Hs]).
+           eapply py_add_wf. exact Hs'.
         -- inv_ok H. apply L_pad; assumption.
       * destruct (part_modelled last); discriminate.
   - (* $max *)
